@@ -1535,8 +1535,10 @@ output_3byte_vex_opcode (OrcCompiler *p, const OrcX86Insn *xinsn)
   // Handle flags
   switch (xinsn->opcode->prefix) {
     case ORC_VEX_SIMD_PREFIX_F2:
+      byte3 |= 0x3;
+      break;
     case ORC_VEX_SIMD_PREFIX_F3:
-      byte3 |= 0x2; 
+      byte3 |= 0x2;
       break;
     case ORC_VEX_SIMD_PREFIX_66:
     case ORC_SIMD_PREFIX_MMX:
